@@ -2,7 +2,8 @@
 //  1. reads the request from stdin and decodes it with the repository's own plugin.UnmarshalRequest,
 //  2. appends one JSON line to the file named by C11_RECORD: its pid, the plugin parameters it got, and a
 //     canonical dump (VL text, schema from C11_REPO) of everything it decoded,
-//  3. behaves as the JSON script in C11_SCRIPT (a map from the plugin parameter id=<k> to a script) says: answers with scripted files / insertion-point
+//  3. behaves as the JSON script in C11_SCRIPT (a map from the plugin parameter id=<k>, or from "#<n>" for the
+//     n-th execution of a run when the plugin got no id, to a script) says: answers with scripted files / insertion-point
 //     patches / warnings / an error, writes to stderr, or misbehaves (exit code, partial stdout,
 //     arbitrary bytes, sleeping).
 package main
@@ -83,6 +84,14 @@ func main() {
 		if strings.HasPrefix(p, "id=") {
 			sc, picked = scripts[strings.TrimPrefix(p, "id=")]
 		}
+	}
+	if !picked {
+		// a plugin started without any option: the script of the n-th execution ("#n", n = records so far)
+		n := 0
+		if b, err := os.ReadFile(os.Getenv("C11_RECORD")); err == nil {
+			n = strings.Count(string(b), "\n")
+		}
+		sc, picked = scripts[fmt.Sprintf("#%d", n)]
 	}
 	if !picked && len(scripts) == 1 {
 		for _, s := range scripts {
